@@ -212,6 +212,26 @@ func runC06(c *eng.Ctx) {
 		}
 	})
 
+	// ---- a group is opened and registered in one write hold of the map lock (Sync reads the map under the same lock) ------------------
+	c.Rule("ATOMIC", foT+".GetOrCreateConsumerGroup{open+register}", func() {
+		f := c.Fn(foT + ".GetOrCreateConsumerGroup")
+		mu := foT + ".lock4map"
+		ls := p.Locks(f, nil)
+		open := c.One(f, eng.AnyCallTo("var:pkg/queue.newConsumerGroupFunc", "pkg/queue.NewConsumerGroup"), "newConsumerGroupFunc(dir, name, fq)")
+		reg := c.Some(f, eng.MapUpdateOf(foT+".consumerGroups"), "fq.consumerGroups[name] = group")
+		for i, r := range reg {
+			ok, why := ls.SameHold(open.Instr, r.Instr, mu, true)
+			c.Check(ok, fmt.Sprintf("open-and-register-in-one-hold[%d]", i), r.Instr, f,
+				"NewConsumerGroup lifts the loaded positions to the queue-wide acknowledged sequence it reads at that moment; the group is put into the map in the same write hold of lock4map, so no Sync (which computes the queue-wide ack as the minimum over the REGISTERED groups, under the read lock) can run between the two",
+				why)
+		}
+		sy := c.Fn(foT + ".Sync")
+		lsy := p.Locks(sy, nil)
+		for i, s := range c.Some(sy, invokeOn(".queue", "SetAcknowledgedSeq"), "queue.SetAcknowledgedSeq(min)") {
+			c.Check(lsy.At(s.Instr).HasField(mu, false), fmt.Sprintf("sync-under-map-lock[%d]", i), s.Instr, sy, "Sync moves the queue-wide ack while it holds lock4map", "held: "+lsy.At(s.Instr).String())
+		}
+	})
+
 	// ---- group meta page layout -----------------------------------------------------------------
 	c.Rule("LAYOUT", "pkg/queue.consumer-group-meta", func() {
 		offs := map[string]map[int64]bool{"consumed": {}, "ack": {}}
